@@ -30,9 +30,18 @@ type shadow struct {
 const shLimit = int64(1) << 52
 
 type shadowTables struct {
-	sh map[int]shadow
-	rb map[int][2]float64
-	no map[int]bool
+	sh   map[int]shadow
+	rb   map[int][2]float64
+	no   map[int]bool
+	half map[int][2]float64 // variables with only one bound so far
+}
+
+func (st *shadowTables) halfSet(id int, b [2]float64) map[int][2]float64 {
+	if st.half == nil {
+		st.half = map[int][2]float64{}
+	}
+	st.half[id] = b
+	return st.half
 }
 
 func (tt *TermTable) shTabs() *shadowTables {
@@ -40,6 +49,63 @@ func (tt *TermTable) shTabs() *shadowTables {
 		tt.shadows = &shadowTables{sh: map[int]shadow{}, rb: map[int][2]float64{}, no: map[int]bool{}}
 	}
 	return tt.shadows
+}
+
+func (tt *TermTable) resetShadows() { tt.shadows = nil }
+
+// learnBounds records interval facts of the form  const <= var, var <= const (also <, >=, >, and
+// conjunctions of them) from an assumption that has just become part of the path condition.  The
+// tables are reset at the start of every path, so a fact is only used on the path that assumed it.
+func (tt *TermTable) learnBounds(c *Term) {
+	switch {
+	case c.op == "and":
+		for _, a := range c.args {
+			tt.learnBounds(a)
+		}
+	case c.op == "ite" && len(c.args) == 3 && c.args[2].IsConst() && c.args[2].sort == SBool && c.args[2].u == 0:
+		tt.learnBounds(c.args[0])
+		tt.learnBounds(c.args[1])
+	case (c.op == "<=" || c.op == "<" || c.op == ">=" || c.op == ">") && len(c.args) == 2:
+		a, b := c.args[0], c.args[1]
+		op := c.op
+		if a.IsConst() && !b.IsConst() {
+			// const op x  ==  x op' const
+			a, b = b, a
+			op = map[string]string{"<=": ">=", "<": ">", ">=": "<=", ">": "<"}[op]
+		}
+		if a.op == "to_real" && len(a.args) == 1 {
+			a = a.args[0]
+		}
+		if a.op != "v" || !b.IsConst() || (a.sort != SReal && a.sort != SInt) {
+			return
+		}
+		v, _, ok := tt.realBounds1(b)
+		if !ok {
+			return
+		}
+		st := tt.shTabs()
+		cur, has := st.rb[a.id]
+		if !has {
+			if h, ok := st.half[a.id]; ok {
+				cur = h
+			} else {
+				cur = [2]float64{math.Inf(-1), math.Inf(1)}
+			}
+		}
+		if op == "<=" || op == "<" {
+			cur[1] = math.Min(cur[1], v)
+		} else {
+			cur[0] = math.Max(cur[0], v)
+		}
+		if !math.IsInf(cur[0], 0) && !math.IsInf(cur[1], 0) {
+			st.rb[a.id] = cur
+			delete(st.no, a.id)
+			// anything memoised as "unknown" may now be known
+			st.no = map[int]bool{}
+		} else {
+			st.half = st.halfSet(a.id, cur)
+		}
+	}
 }
 
 func fitsSigned(lo, hi int64, w int) bool {
